@@ -818,10 +818,10 @@ func (g *qgen) genOp() jop {
 	//           enq  batch deq ack nack ext dead ackB nackB deadB cancel requeue resume rqDead delDead cF rF sF list listDead lookup stats restart
 	w := map[string][]int{
 		"mix":      {18, 5, 18, 9, 6, 3, 4, 3, 2, 2, 3, 3, 2, 2, 2, 2, 2, 1, 3, 2, 1, 3, 1},
-		"lease":    {14, 3, 26, 12, 9, 6, 5, 6, 4, 3, 3, 2, 1, 1, 0, 1, 1, 0, 1, 0, 0, 1, 1},
+		"lease":    {14, 7, 26, 12, 9, 6, 5, 6, 4, 3, 3, 2, 1, 1, 0, 1, 1, 0, 1, 0, 0, 1, 1},
 		"admit":    {34, 14, 12, 8, 3, 1, 3, 2, 1, 1, 2, 4, 2, 2, 2, 1, 1, 1, 1, 1, 0, 3, 1},
 		"operator": {16, 4, 12, 4, 3, 1, 6, 1, 1, 2, 8, 7, 5, 5, 5, 8, 7, 5, 4, 4, 2, 2, 0},
-		"visible":  {14, 3, 32, 5, 12, 6, 2, 2, 5, 1, 2, 3, 2, 2, 0, 1, 1, 1, 1, 0, 0, 2, 3},
+		"visible":  {12, 9, 32, 5, 12, 6, 2, 2, 5, 1, 2, 3, 2, 2, 0, 1, 1, 1, 1, 0, 0, 2, 3},
 	}[g.profile]
 	if w == nil {
 		w = []int{18, 5, 18, 9, 6, 3, 4, 3, 2, 2, 3, 3, 2, 2, 2, 2, 2, 1, 3, 2, 1, 3, 1}
@@ -860,7 +860,11 @@ func (g *qgen) genOp() jop {
 		n := pick(r, []int{1, 2, 2, 3, 4, 6})
 		es := make([]jenv, 0, n)
 		for i := 0; i < n; i++ {
-			es = append(es, g.newEnv())
+			e := g.newEnv()
+			if e.Next == 0 && r.chance(20) {
+				e.Next = g.clock.now + int64(1+r.intn(10))*int64(time.Second) // a scheduled publish
+			}
+			es = append(es, e)
 		}
 		if r.chance(8) && n > 1 {
 			es[n-1].ID = es[0].ID // duplicate inside the batch
